@@ -73,7 +73,7 @@ def TransG (n : Nat) : Prop :=
   ∀ a b c, a.w + b.w + c.w ≤ n → GHyp cfg sfh a b c → asg cfg sfh a b = true → asg cfg sfh b c = true → asg cfg sfh a c = true
 
 theorem tg_leaf (t : Ty) (h : match t with
-    | .undef | .dflt | .numeric | .str | .bin | .int _ | .float _ _ | .bool _ | .tspan _ | .strSz _ | .strVal _ | .enum _ _
+    | .undef | .dflt | .numeric | .str | .bin | .int _ | .float _ _ | .bool _ | .tspan _ | .tstamp _ | .strSz _ | .strVal _ | .enum _ _
     | .pattern _ | .regexp _ | .object _ | .scalar | .scalarData | .any | .coll _ => True
     | _ => False) : t.TG sfh := by
   cases t <;> simp only [] at h <;> (first | contradiction | (unfold Ty.TG; trivial))
@@ -84,25 +84,27 @@ theorem trG_scalar (n : Nat) (ih : TransG cfg sfh n) (b c : Ty) (hw : Ty.scalar.
   simp only [Ty.w] at hw
   apply recv_to_asg cfg sfh _ c hc
   have key : (asg cfg sfh .str b || asg cfg sfh .numeric b || asg cfg sfh (.bool none) b || asg cfg sfh (.regexp "") b ||
-      asg cfg sfh (.tspan Rng.all) b) = true → asgRecv cfg sfh .scalar c = true := by
+      asg cfg sfh (.tspan Rng.all) b || asg cfg sfh (.tstamp tstampAll) b) = true → asgRecv cfg sfh .scalar c = true := by
     intro h
     simp only [Bool.or_eq_true] at h
     have fin : (asg cfg sfh .str c || asg cfg sfh .numeric c || asg cfg sfh (.bool none) c || asg cfg sfh (.regexp "") c ||
-        asg cfg sfh (.tspan Rng.all) c) = true → asgRecv cfg sfh .scalar c = true := by
+        asg cfg sfh (.tspan Rng.all) c || asg cfg sfh (.tstamp tstampAll) c) = true → asgRecv cfg sfh .scalar c = true := by
       intro h'; unfold asgRecv; cases c <;> simp_all
     apply fin
     simp only [Bool.or_eq_true]
-    rcases h with (((h | h) | h) | h) | h
-    · left; left; left; left
+    rcases h with ((((h | h) | h) | h) | h) | h
+    · left; left; left; left; left
       exact ih .str b c (by simp [Ty.w]; omega) ⟨tg_leaf sfh _ trivial, H.fb, H.fc, H.wb, H.wc⟩ h h2
-    · left; left; left; right
+    · left; left; left; left; right
       exact ih .numeric b c (by simp [Ty.w]; omega) ⟨tg_leaf sfh _ trivial, H.fb, H.fc, H.wb, H.wc⟩ h h2
-    · left; left; right
+    · left; left; left; right
       exact ih (.bool none) b c (by simp [Ty.w]; omega) ⟨tg_leaf sfh _ trivial, H.fb, H.fc, H.wb, H.wc⟩ h h2
-    · left; right
+    · left; left; right
       exact ih (.regexp "") b c (by simp [Ty.w]; omega) ⟨tg_leaf sfh _ trivial, H.fb, H.fc, H.wb, H.wc⟩ h h2
-    · right
+    · left; right
       exact ih (.tspan Rng.all) b c (by simp [Ty.w]; omega) ⟨tg_leaf sfh _ trivial, H.fb, H.fc, H.wb, H.wc⟩ h h2
+    · right
+      exact ih (.tstamp tstampAll) b c (by simp [Ty.w]; omega) ⟨tg_leaf sfh _ trivial, H.fb, H.fc, H.wb, H.wc⟩ h h2
   unfold asgRecv at h1
   cases b with
   | scalar =>
@@ -120,19 +122,19 @@ theorem trG_scalar (n : Nat) (ih : TransG cfg sfh n) (b c : Ty) (hw : Ty.scalar.
     · -- ScalarData's rule on c
       unfold asgRecv at h2
       have : (asg cfg sfh .str c || asg cfg sfh .numeric c || asg cfg sfh (.bool none) c || asg cfg sfh (.regexp "") c ||
-          asg cfg sfh (.tspan Rng.all) c) = true ∨ c = .scalarData := by
+          asg cfg sfh (.tspan Rng.all) c || asg cfg sfh (.tstamp tstampAll) c) = true ∨ c = .scalarData := by
         cases c with
         | scalarData => right; rfl
         | _ =>
           left
           simp only [Bool.or_eq_true] at h2 ⊢
           rcases h2 with ((h2 | h2) | h2) | h2
-          · left; left; left; left; exact h2
-          · left; left; left; right
+          · left; left; left; left; left; exact h2
+          · left; left; left; left; right
             exact ih .numeric (.int Rng.all) _ (by simp [Ty.w] at hw ⊢; omega) ⟨tg_leaf sfh _ trivial, tg_leaf sfh _ trivial, H.fc, wf_leaf cfg _ trivial, H.wc⟩
               (by rw [asg_plain_r cfg sfh _ _ rfl]; simp [asgRecv]) h2
-          · left; left; right; exact h2
-          · left; left; left; right
+          · left; left; left; right; exact h2
+          · left; left; left; left; right
             exact ih .numeric floatAll _ (by simp [Ty.w, floatAll] at hw ⊢; omega) ⟨tg_leaf sfh _ trivial, by unfold floatAll; exact tg_leaf sfh _ trivial, H.fc, by unfold floatAll; exact wf_leaf cfg _ trivial, H.wc⟩
               (by rw [asg_plain_r cfg sfh _ _ rfl]; simp [asgRecv, floatAll]) h2
       rcases this with h | h
